@@ -37,6 +37,7 @@ from spacepackets.util import ByteFieldU8, ByteFieldU16, ByteFieldU32, ByteField
 from props.c02 import _tc, rand_args as tc_args
 from props.c03 import _tm, _s17, rand_args as tm_args, TS_LENS
 from props.c15 import s1_args, _params as s1_params, Subservice, WIDTHS
+from props.c05 import mutate_cfdp, MUT_ALL
 
 # --------------------------------------------------------------------------------------------
 # faults
@@ -334,10 +335,95 @@ def _repacked(obj) -> Optional[str]:
         return None
 
 
+# ---- what the application did before: key "mut" = it modifies, through the public setters, packets it decoded earlier
+#      (a received PDU switched to NO_CRC for forwarding, a received TC header re-used for the reply); key "poison" = calls
+#      that failed and were caught (an unencodable field, a cut buffer). Implementation side only: neither can make a
+#      corrupted packet acceptable or a packed trailer wrong. ----
+def _mutate_pus(mask: int):
+    def mutate(obj):
+        ts = core.tolerant_set
+        h = obj.sp_header
+        names = ("apid", "packet_type", "sec_header_flag", "seq_count", "seq_flags", "data_len")
+        old = {n: getattr(h, n) for n in names}
+        top = {n: getattr(obj, n) for n in ("source_id",) if hasattr(obj, n)}
+        if mask & 1:
+            ts(obj, "apid", int(old["apid"]) ^ 0x2A5)
+            ts(h, "apid", int(old["apid"]) ^ 0x2A5)
+        if mask & 2:
+            ts(h, "packet_type", type(old["packet_type"])(1 - int(old["packet_type"])))
+            ts(h, "sec_header_flag", not bool(old["sec_header_flag"]))
+        if mask & 4:
+            ts(obj, "seq_count", int(old["seq_count"]) ^ 0x1555)
+            ts(h, "seq_count", int(old["seq_count"]) ^ 0x1555)
+            ts(h, "seq_flags", SequenceFlags((int(old["seq_flags"]) + 1) % 4))
+        if mask & 8:
+            ts(h, "data_len", int(old["data_len"]) ^ 0x0101)
+        if mask & 16 and "source_id" in top:
+            ts(obj, "source_id", int(top["source_id"]) ^ 0x5555)
+
+        def undo():
+            for n, v in top.items():
+                ts(obj, n, v)
+            for n, v in old.items():
+                ts(h, n, v)
+        return undo
+    return mutate
+
+
+def _mutate(kind: "Kind", mask: int):
+    return _mutate_pus(mask) if kind.pus else mutate_cfdp(mask)
+
+
+def _unencodable(kind: "Kind", obj):
+    """makes a (throw-away) decoded packet unencodable through public attributes, so that its pack() fails part-way"""
+    ts = core.tolerant_set
+    if kind.pus:
+        for route in ("pus_tc_sec_header", "pus_tm_sec_header"):
+            for holder in (obj, getattr(obj, "pus_tm", None)):
+                sec = getattr(holder, route, None)
+                if sec is not None:
+                    ts(sec, "subservice", 256)
+        ts(obj, "source_id", 0x12345)
+    else:
+        ts(obj.pdu_header, "transaction_seq_num", None)
+
+
+def _poison_decoded(kind: "Kind", raw: bytes, a):
+    """failed calls, caught: packing a second object decoded from `raw` after it was made unencodable (pack, calc_crc,
+    to_space_packet), decoding cut / corrupted buffers"""
+    def bad_pack(method):
+        def f():
+            o = kind.decode(raw, a)
+            _unencodable(kind, o)
+            for holder in (o, getattr(o, "pus_tm", None)):
+                if hasattr(holder, method):
+                    getattr(holder, method)()
+                    return
+        return f
+    core.attempt_all([bad_pack("pack"), bad_pack("calc_crc"), bad_pack("to_space_packet"),
+                      lambda: kind.decode(raw[:-1], a), lambda: kind.decode(raw[: len(raw) // 2], a),
+                      lambda: kind.decode(flip(raw, 8 * len(raw) - 3, "1"), a)])
+
+
 def op_check(a):
     kind = KINDS[a["kind"]]
     raw = unhx(a["raw"])
+    if a.get("mut"):
+        # decode, modify what was decoded, decode again: the packet itself and corrupted variants of it (last bit of the
+        # trailer, a bit of the last data octet, the first bit behind the length-determining octets, one in the middle)
+        nbits = 8 * len(raw)
+        ks = sorted({nbits - 1, nbits - 17, kind.ex[1], (kind.ex[1] + nbits) // 2})
+        others = [flip(raw, k, "1") for k in ks if 0 <= k < nbits and not meets(k, 1, *kind.ex)]
+        core.redecode_after_mutation(lambda b: kind.decode(b, a), raw, _repacked, _mutate(kind, a["mut"]),
+                                     f"{kind.name} decoder", others)
     obj = kind.decode(raw, a)
+    if a.get("poison"):
+        _poison_decoded(kind, raw, a)
+        again = bytes(obj.pack())
+        if not kind.crc_check(again):
+            raise SelfCheckFailure("a decoded valid packet, packed again after failed (caught) pack / decode calls on OTHER objects, "
+                                   "carries a trailer that is not the CRC of the preceding octets: " + again.hex())
+        kind.decode(again, a)
     # decoded packets do not share state: the packets decoded by the previous calls of this op are looked at again
     # (in between, the sweeps have run thousands of corrupted packets through the same decoders)
     core.ISOLATION.check("C04:pus" if kind.pus else "C04:cfdp", obj, _repacked)
@@ -367,8 +453,35 @@ def op_sweep(a):
         base_ok = False
     out = {"base_ok": base_ok, "base_crc_check": kind.crc_check(raw), "faults": 0, "rejected": 0, "undocumented": 0,
            "clean_windows": 0, "crc_class_on_clean": 0, "crc_checked": 0, "crc_check_false": 0}
+    mut = a.get("mut") if base_ok else None
+    undos: List[Callable] = []
+    try:
+        twin = twin_view = None
+        if mut:
+            twin = kind.decode(raw, a)
+            twin_view = _repacked(twin)
+        _sweep(kind, a, raw, out, base_ok, every, mut, undos)
+        if mut:
+            if _repacked(twin) != twin_view or _repacked(kind.decode(raw, a)) != twin_view:
+                raise SelfCheckFailure("the uncorrupted packet is decoded differently (or an object decoded from it changed) after "
+                                       "other objects decoded from it were modified through their public setters: " + raw.hex())
+    finally:
+        for u in reversed(undos):
+            try:
+                u()
+            except Exception:  # noqa
+                pass
+    FAULTS_RUN["n"] += out["faults"]
+    return out
+
+
+REMUT_EVERY = 48
+
+
+def _sweep(kind: "Kind", a, raw: bytes, out, base_ok: bool, every: int, mut, undos):
     nbits = 8 * len(raw)
     cls = _cls_of(kind, a, raw)
+    mutate = _mutate(kind, mut) if mut else None
     for pat in a["patterns"]:
         ln = len(pat)
         if ln == 0 or ln > nbits:
@@ -376,6 +489,17 @@ def op_sweep(a):
         for k in range(nbits - ln + 1):
             if meets(k, ln, *kind.ex):
                 continue
+            if mutate is not None and out["faults"] % REMUT_EVERY == 0:
+                # intact packets keep arriving between the corrupted ones and the application keeps modifying what it
+                # decoded from them
+                try:
+                    u = mutate(kind.decode(raw, a))
+                    if callable(u):
+                        undos.append(u)      # all of them are undone at the end, the first one last
+                except SelfCheckFailure:
+                    raise
+                except Exception:  # noqa
+                    pass
             d = flip(raw, k, pat)
             clean = not meets(k, ln, *cls)
             do_check = out["faults"] % every == 0
@@ -400,10 +524,9 @@ def op_sweep(a):
                     out["crc_class_on_clean"] += 1   # informative only (see SWEEP_KEYS)
             else:
                 if base_ok:
-                    raise SelfCheckFailure(f"corrupted packet ACCEPTED by the decoder (bit_offset={k} pattern={pat}): "
-                                           + _snippet(kind, d, {}))
-    FAULTS_RUN["n"] += out["faults"]
-    return out
+                    raise SelfCheckFailure(f"corrupted packet ACCEPTED by the decoder (bit_offset={k} pattern={pat}"
+                                           + (f", after packets decoded earlier were modified through their setters, mut={mut}" if mut else "")
+                                           + "): " + _snippet(kind, d, {}))
 
 
 def op_crc(a):
@@ -434,9 +557,89 @@ def _after_pack_checks(raw: bytes, decode):
     decode(raw)
 
 
+def _poison_tc(a, t: PusTc, mask: int):
+    """key "poison" of c04_tc_mutated_pack: pack / CRC calls that fail and are caught, on the telecommand itself (1: a source
+    ID that does not fit, corrected afterwards) and on other telecommands (2: service 256 - pack, calc_crc, to_space_packet;
+    4: subservice / acknowledge flags out of range, constructor given service 256; 8: application data of a wrong type;
+    16: decoding cut buffers). The next pack must not know."""
+    att = []
+    if mask & 1:
+        old = t.source_id
+
+        def same():
+            t.source_id = 0x12345
+            t.pack()
+        core.attempt_all([same, t.calc_crc])
+        t.source_id = old
+    if mask & 2:
+        o = _tc(a)
+        core.tolerant_set(getattr(o, "pus_tc_sec_header", None), "service", 256)
+        att += [o.pack, o.calc_crc, o.to_space_packet]
+    if mask & 4:
+        o2, o3 = _tc(a), _tc(a)
+        core.tolerant_set(getattr(o2, "pus_tc_sec_header", None), "subservice", -1)
+        core.tolerant_set(getattr(o3, "pus_tc_sec_header", None), "ack_flags", 0x1FF)
+        att += [o2.pack, o3.pack, lambda: PusTc(service=256, subservice=a["subservice"], apid=a["apid"]).pack(),
+                lambda: PusTc(service=a["service"], subservice=a["subservice"], source_id=1 << 16).pack()]
+    if mask & 8:
+        o4 = _tc(a)
+
+        def wrong_type():
+            o4.app_data = "text"
+            o4.pack()
+        att += [wrong_type, o4.calc_crc]
+    if mask & 16:
+        good = bytes(_tc(a).pack())
+        att += [lambda: PusTc.unpack(good[:-1]), lambda: PusTc.unpack(good[:7]), lambda: PusTc.unpack(flip(good, 50, "1"))]
+    core.attempt_all(att)
+
+
+def _poison_tm(a, mask: int):
+    """key "poison" of c04_tm_mutated_pack: the same on OTHER telemetry packets (2: message counter / destination ID that do
+    not fit; 4: service / subservice / time reference out of range; 8: source data of a wrong type; 16: cut buffers)"""
+    att = []
+    sec = lambda o: getattr(o, "pus_tm_sec_header", None)  # noqa: E731
+    if mask & 2:
+        o, o1 = _tm(a), _tm(a)
+        core.tolerant_set(sec(o), "message_counter", 0x12345)
+        core.tolerant_set(sec(o1), "dest_id", 0x12345)
+        att += [o.pack, o.calc_crc, o.to_space_packet, o1.pack]
+    if mask & 4:
+        o2, o3 = _tm(a), _tm(a)
+        core.tolerant_set(sec(o2), "service", 256)
+        core.tolerant_set(sec(o3), "spacecraft_time_ref", 0x1FF)
+        att += [o2.pack, o2.calc_crc, o3.pack, lambda: _tm(dict(a, service=256)).pack(), lambda: _tm(dict(a, msg_counter=1 << 16)).pack()]
+    if mask & 8:
+        o4 = _tm(a)
+
+        def wrong_type():
+            o4.tm_data = "text"
+            o4.pack()
+        att += [wrong_type, o4.calc_crc]
+    if mask & 16:
+        good, ts = bytes(_tm(a).pack()), len(unhx(a["timestamp"]))
+        att += [lambda: PusTm.unpack(good[:-1], ts), lambda: PusTm.unpack(good[:7], ts), lambda: PusTm.unpack(flip(good, 50, "1"), ts)]
+    core.attempt_all(att)
+
+
+def _next_pack_clean(t, what: str):
+    """the first pack() after failed (caught) calls: its trailer is the CRC of the octets before it"""
+    raw = bytes(t.pack())
+    c = CRC16_CCITT_FUNC(raw[:-2])
+    if raw[-2:] != bytes([c >> 8, c & 0xFF]):
+        raise SelfCheckFailure(f"{what}: the first pack() after pack / CRC calls that FAILED (and were caught) carries a trailer that is "
+                               f"not the CRC of the preceding octets ({c:#06x}): {raw.hex()}")
+
+
 def op_tc_mutated_pack(a):
     t = _tc(a)
+    if a.get("poison") and a.get("poison_at", 0) == 0:
+        _poison_tc(a, t, a["poison"])
+        _next_pack_clean(t, "PusTc")
     first = bytes(t.pack())
+    if a.get("poison") and a.get("poison_at", 0) == 1:
+        _poison_tc(a, t, a["poison"])
+        _next_pack_clean(t, "PusTc")
     if a["set_apid"] is not None:
         t.apid = a["set_apid"]
     if a["set_count"] is not None:
@@ -445,6 +648,9 @@ def op_tc_mutated_pack(a):
         t.source_id = a["set_source_id"]
     if a["set_data"] is not None:
         t.app_data = unhx(a["set_data"])
+    if a.get("poison") and a.get("poison_at", 0) == 2:
+        _poison_tc(a, t, a["poison"])
+        _next_pack_clean(t, "PusTc")
     raw = core.pack_stable(t, "PusTc.pack()")
     _after_pack_checks(raw, PusTc.unpack)
     return {"first": hx(first), "raw": hx(raw), "crc_check": bool(check_pus_crc(raw))}
@@ -452,13 +658,22 @@ def op_tc_mutated_pack(a):
 
 def op_tm_mutated_pack(a):
     t = _tm(a)
+    if a.get("poison") and a.get("poison_at", 0) == 0:
+        _poison_tm(a, a["poison"])
+        _next_pack_clean(t, "PusTm")
     first = bytes(t.pack())
+    if a.get("poison") and a.get("poison_at", 0) == 1:
+        _poison_tm(a, a["poison"])
+        _next_pack_clean(t, "PusTm")
     if a["set_apid"] is not None:
         t.apid = a["set_apid"]
     if a["set_seq_flags"] is not None:
         t.seq_flags = SequenceFlags(a["set_seq_flags"])
     if a["set_data"] is not None:
         t.tm_data = unhx(a["set_data"])
+    if a.get("poison") and a.get("poison_at", 0) == 2:
+        _poison_tm(a, a["poison"])
+        _next_pack_clean(t, "PusTm")
     raw = core.pack_stable(t, "PusTm.pack()")
     _after_pack_checks(raw, lambda d: PusTm.unpack(d, len(unhx(a["timestamp"]))))
     return {"first": hx(first), "raw": hx(raw), "crc_check": bool(check_pus_crc(raw))}
@@ -568,11 +783,15 @@ class C04(Prop):
             pick = lambda v: v if rng.random() < 0.6 else None  # noqa: E731
             a.update(set_apid=pick(rng.choice(pool(2047, rng))), set_count=pick(rng.choice(pool(16383, rng))),
                      set_source_id=pick(rng.choice(pool(65535, rng))), set_data=pick(hx(rbytes(rng, rng.choice(DATA_LENS)))))
-            yield Case({"op": "c04_tc_mutated_pack", **a}, "valid", tag="setters-then-pack")
+            # two of three: pack / CRC calls that failed and were caught come first (before the first pack, between the first
+            # pack and the setters, or right before the final pack)
+            po = {"poison": rng.choice([1, 2, 4, 8, 16, 31, rng.randint(1, 31)]), "poison_at": rng.randint(0, 2)} if i % 3 else {}
+            yield Case({"op": "c04_tc_mutated_pack", **a, **po}, "valid", tag="setters-then-pack" + ("+failed-calls" if po else ""))
             b = tm_args(rng, rng.choice(TS_LENS), rng.choice(DATA_LENS))
             b.update(set_apid=pick(rng.choice(pool(2047, rng))), set_seq_flags=pick(rng.randint(0, 3)),
                      set_data=pick(hx(rbytes(rng, rng.choice(DATA_LENS)))))
-            yield Case({"op": "c04_tm_mutated_pack", **b}, "valid", tag="setters-then-pack")
+            po = {"poison": rng.choice([2, 4, 8, 16, 30, rng.randint(1, 15) * 2]), "poison_at": rng.randint(0, 2)} if i % 3 else {}
+            yield Case({"op": "c04_tm_mutated_pack", **b, **po}, "valid", tag="setters-then-pack" + ("+failed-calls" if po else ""))
         # ---- fault enumeration ------------------------------------------------------------------
         for kind in KINDS.values():
             if thorough:
@@ -584,7 +803,10 @@ class C04(Prop):
                 raw, ex = kind.make(rng, off + i)
                 full = i >= n_light
                 m = kind.model(raw)
-                yield Case({"op": f"c04_{m}_check", **kind.extra(raw, ex), "raw": hx(raw)}, "valid", tag=f"{kind.name}:valid")
+                # (what the application did with packets it decoded earlier - see op_check: keys "mut", "poison")
+                mut = rng.choice([1, 1, 129, MUT_ALL, rng.randint(1, MUT_ALL) | 1]) if not kind.pus else rng.randint(1, 31)
+                yield Case({"op": f"c04_{m}_check", **kind.extra(raw, ex), "raw": hx(raw), "mut": mut, "poison": i % 2}, "valid",
+                           tag=f"{kind.name}:valid")
                 try:
                     kind.decode(raw, ex)
                     base_ok = kind.crc_check(raw)
@@ -599,8 +821,8 @@ class C04(Prop):
                     every = (8 if full else 2) if thorough else (6 if full else 3)
                 else:
                     every = (8 if full else 2) if thorough else 4
-                yield Case({"op": f"c04_{m}_sweep", **kind.extra(raw, ex), "raw": hx(raw), "patterns": pats, "crc_every": every},
-                           "valid", tag=f"{kind.name}:{'full' if full else 'light'}-sweep", keys=SWEEP_KEYS)
+                yield Case({"op": f"c04_{m}_sweep", **kind.extra(raw, ex), "raw": hx(raw), "patterns": pats, "crc_every": every,
+                            "mut": mut}, "valid", tag=f"{kind.name}:{'full' if full else 'light'}-sweep", keys=SWEEP_KEYS)
                 # a sample of the same faults as individually compared lines
                 nbits = 8 * len(raw)
                 for _ in range(40 if thorough else 10):
@@ -620,7 +842,8 @@ class C04(Prop):
             off = rng.randint(0, 1000)
             for i in range(12 if thorough else 5):
                 raw, ex = kind.make(rng, off + 7 * i)
-                yield Case({"op": f"c04_{kind.model(raw)}_check", **kind.extra(raw, ex), "raw": hx(raw)}, "valid",
+                yield Case({"op": f"c04_{kind.model(raw)}_check", **kind.extra(raw, ex), "raw": hx(raw),
+                            **({"mut": rng.randint(1, MUT_ALL if not kind.pus else 31), "poison": 1} if i % 2 else {})}, "valid",
                            tag=f"{kind.name}:back-to-back")
 
 
